@@ -62,6 +62,7 @@ func dtlcpConn(ccfg, scfg *dtlcp.Config, s scen, roots *smx509.CertPool, now tim
 		cvBits: cvBitsOf(s.cli), finOK: true, roots: roots, now: now}
 	st := srv.ConnectionState()
 	ob := connObs{err: r.SErr, resumed: st.DidResume, peers: len(st.PeerCertificates), chains: len(st.VerifiedChains),
+		pleaf: leafOf(st.PeerCertificates), vleaf: chainLeafOf(st.VerifiedChains),
 		req: reqTok(ci.sf), alert: alertTok(ci.sf), cliErr: r.CErr}
 	if r.TimedOut && ob.err == nil {
 		ob.err = fmt.Errorf("timeout")
@@ -92,8 +93,7 @@ func runDTLCP(s scen) (string, string) {
 		roots2, now2 := cfg2Of(s.cfg2)
 		ci2, ob2 := dtlcpConn(ccfg, dServer(s.pol2, s.suite, roots2, now2, cache), s, roots2, now2)
 		t2 := ci2.tokens("2")
-		_, nowToks := judgeCerts(ci1.ders, roots2, now2, ci1.ecdhe)
-		return t1 + t2 + fmt.Sprintf(" 2.offer=%s now0=%s now1=%s", offerTok(ci2.cf), nowToks[0], nowToks[1]), ob1.tokens("1") + ob2.tokens("2")
+		return t1 + t2 + histTail(ci1, ci2, s.suite, []uint16{suiteID(s.suite)}, roots2, now2), ob1.tokens("1") + ob2.tokens("2")
 	default:
 		ci, ob := dtlcpConn(dClient(s.cli, nil), dServer(s.pol, s.suite, st.Root.Pool, pki.Now, nil), s, st.Root.Pool, pki.Now)
 		return ci.tokens("1"), ob.tokens("1")
